@@ -1,10 +1,12 @@
 (* Proofs/C05_Comp.v - the per-component delimiter clauses on the STORED slices of a Url record.
-   1. the clauses as they were first stated for every reachable Url are FALSE of the model (and of the
-      crate): Url::set_path on an opaque-path URL escapes only a '/' in the very first position of its
-      argument, TAB / LF / CR are dropped later, and the rest goes through the opaque-path state whose
-      encode set (CONTROLS) keeps space, dquote, '<', '>', backtick, '{', '}':
+   History: on the pinned code the clauses were FALSE for reachable Urls (finding F-C06-6):
+   Url::set_path on an opaque-path URL escaped only a '/' in the very first position of its argument,
+   TAB / LF / CR were dropped later, and the rest went through the opaque-path state whose encode set
+   (CONTROLS) keeps space, dquote, '<', '>', backtick, '{', '}':
         Url::parse("a:b").set_path("\t/ y")  =  "a:/ y"   - a hierarchical path with a raw space.
-   2. comp_ok: the clauses in the form that is an invariant of the setters (Proofs/C05_CompSteps.v). *)
+   The code was repaired (0cfc9d8), Model/Setters.v follows it, and the former witness is now a
+   regression lemma (cw_fixed): the same call gives "a:%2F y", still an opaque path.
+   comp_ok: the clauses in the form that is an invariant of the setters (Proofs/C05_CompSteps.v). *)
 From RU Require Import Base.Prelude Base.Utf8 Model.AsciiSet Gen.Tables Model.PercentEncoding
   Model.HostT Model.UrlRecord Model.Parser Model.Setters Model.WF
   Proofs.ListN Proofs.C05_Enc Proofs.C05_Parser Proofs.C05_Setters Proofs.C05_History Proofs.C05_Sharp.
@@ -31,7 +33,7 @@ Definition components_clean (dbg : bool) (u : url) : Prop :=
   /\ (forall q, query dbg u = Some (Some q) -> free D_QUERY q)
   /\ (forall f, fragment dbg u = Some (Some f) -> free D_FRAGMENT f).
 
-(* ---------- 1. the witness ---------- *)
+(* ---------- the former witness of F-C06-6 on the repaired code ---------- *)
 (* host functions that accept nothing (the witness never reaches them) *)
 Definition no_hp (s : list N) : result host := Err IdnaError.
 Definition no_hd (h : host) : list N := [].
@@ -41,8 +43,8 @@ Proof. split; intros h _; constructor. Qed.
 
 (* "a:b" *)
 Definition cw_start : url := mkUrl [97; 58; 98] 1 2 2 2 HI_None None 2 None None.
-(* "a:/ y" : not cannot-be-a-base, path "/ y" *)
-Definition cw_end : url := mkUrl [97; 58; 47; 32; 121] 1 2 2 2 HI_None None 2 None None.
+(* "a:%2F y" : still cannot-be-a-base *)
+Definition cw_end : url := mkUrl [97; 58; 37; 50; 70; 32; 121] 1 2 2 2 HI_None None 2 None None.
 
 Lemma cw_reachable dbg : Reachable dbg no_hp no_hp no_hd cw_end.
 Proof.
@@ -52,25 +54,11 @@ Proof.
   - destruct dbg; vm_compute; reflexivity.
 Qed.
 
-Lemma cw_facts : wf_b cw_start = true /\ wf_b cw_end = true
-  /\ cannot_be_a_base cw_start = Some true /\ cannot_be_a_base cw_end = Some false
-  /\ path cw_end = Some [47; 32; 121].
-Proof. repeat split; vm_compute; reflexivity. Qed.
-
-Theorem components_refuted : exists dbg hp hpo hd u,
-  HostOK hp hpo hd /\ IpOK hd /\ Reachable dbg hp hpo hd u /\ wf_b u = true
-  /\ cannot_be_a_base u = Some false /\ exists p, path u = Some p /\ In 32 p.
+Lemma cw_fixed : wf_b cw_start = true /\ wf_b cw_end = true
+  /\ cannot_be_a_base cw_start = Some true /\ cannot_be_a_base cw_end = Some true
+  /\ path cw_end = Some [37; 50; 70; 32; 121] /\ sharp cw_end.
 Proof.
-  exists true, no_hp, no_hp, no_hd, cw_end. destruct no_host_ok as [H1 H2]. destruct cw_facts as (_ & W & _ & C & P).
-  split; [exact H1|]. split; [exact H2|]. split; [apply cw_reachable|]. split; [exact W|]. split; [exact C|].
-  exists [47; 32; 121]. split; [exact P | right; left; reflexivity].
-Qed.
-
-(* the same record refutes "U+0020 only inside an opaque path" along histories *)
-Lemma cw_not_sharp : ~ sharp cw_end.
-Proof.
-  intros [H|H].
-  - assert (ok_byte 32) as X by (rewrite Forall_forall in H; apply H; vm_compute; tauto).
-    unfold ok_byte in X. lia.
-  - destruct H as (_ & H). vm_compute in H. destruct H as (_ & H & _). discriminate.
+  repeat split; try (vm_compute; reflexivity). right.
+  split; [|split; [|split]]; try (vm_compute; reflexivity);
+    repeat constructor; unfold ok_or_space, ok_byte; lia.
 Qed.
